@@ -124,3 +124,27 @@ Definition ref_exception (r : request) (pdu : list N) : option N :=
    byte-count byte, hi the unused high bits of the last coil byte *)
 Definition ref_read_bits_reply (fc bc : N) (bits : list bool) : list N := fc :: bc :: pack bits.
 Definition ref_read_registers_reply (fc bc : N) (regs : list N) : list N := fc :: bc :: flat_map be regs.
+
+(* ------------------------------------------------------------------ C03 over a session *)
+(* Which calls reach the client task (and are given a transaction id there): every read within the
+   limits, every single write, and every write-multiple whose WriteMultiple value could be built
+   (at most 65535 values, non-empty, no address overflow) - EVEN IF its count exceeds the function's
+   limit: such a request is rejected by the task when it formats the frame, after it has taken an id. *)
+Definition reaches_task (c : call) : bool :=
+  match c with
+  | CWriteMultipleCoils s vs | CWriteMultipleRegisters s vs => range_ok s (len vs) && (len vs <=? 65535)
+  | _ => within_limits_b c
+  end.
+
+(* The wire log of one connection on which the calls cs = [(unit id, call); ...] are executed one
+   after the other (each to completion), k requests having reached the task before: the frames of
+   the calls within the limits, in order, the i-th request that reaches the task carrying
+   transaction id i mod 65536 (MBAP; an RTU frame carries none). *)
+Fixpoint ref_session_wire (tcp : bool) (k : N) (cs : list (N * call)) : list (list N) :=
+  match cs with
+  | [] => []
+  | (uid, c) :: rest =>
+      if within_limits_b c
+      then (if tcp then ref_encode_tcp (k mod 65536) uid c else ref_encode_rtu uid c) :: ref_session_wire tcp (k + 1) rest
+      else ref_session_wire tcp (if reaches_task c then k + 1 else k) rest
+  end.
